@@ -341,24 +341,29 @@ def _preload():
 
 
 def _case(kind, ident, dp):
+    """(key, callable, spec, to_onnx kwargs, testcase values, testcase) - registry cases exactly as harness/exports.export_tp
+    builds them (specs follow the precision variant, layout flags, names, normalization mode, opset)"""
+    import inspect
     import exports
     if kind == "reg":
         tp = exports.registry_items()[ident]
-        return (exports.tp_key(tp), exports.tp_callable(tp, dp), exports.tp_spec(tp), tp.get("input_params"),
-                tp.get("opset_version") or 23, tp.get("input_values"), tp)
+        fn = exports.tp_callable(tp, dp)
+        spec = exports.tp_spec(tp, dp)
+        if spec is None:
+            if inspect.signature(fn).parameters:
+                raise ValueError("no input spec")
+            spec = []
+        kw = dict(input_params=tp.get("input_params", {}), opset=tp.get("opset_version", 23) or 23,
+                  enable_double_precision=dp, inputs_as_nchw=tp.get("inputs_as_nchw"), outputs_as_nchw=tp.get("outputs_as_nchw"),
+                  input_names=tp.get("input_names"), output_names=tp.get("output_names"),
+                  normalization_mode=tp.get("normalization_mode", "auto"))
+        return exports.tp_key(tp), fn, spec, kw, tp.get("input_values"), tp
     fn, spec = exports._extra()[ident]
-    return ident, fn, spec, None, None, None, None
+    return ident, fn, spec, {"enable_double_precision": dp}, None, None
 
 
-def _export(fn, spec, params, opset, dp):
+def _export(fn, spec, kw):
     from jax2onnx import to_onnx
-    if spec is None:
-        raise ValueError("no input spec")
-    kw = {"enable_double_precision": dp}
-    if opset:
-        kw["opset"] = opset
-    if params is not None:
-        kw["input_params"] = params
     return to_onnx(fn, spec, **kw)
 
 
@@ -429,7 +434,7 @@ def _jaxpr_float_dtypes(closed):
 NARROW = ("float32", "float16", "bfloat16", "complex64")
 
 
-def _numeric(fn, m, key, vals, params, seed, spec_dtypes=()):
+def _numeric(fn, m, key, vals, kw, seed, spec_dtypes=()):
     """ORT(model) vs the callable evaluated by JAX with x64 enabled, on float64 inputs.  Returns a dict of numbers.
     In scope only when the testcase does not itself ask for a narrower float input (a float32 spec makes the JAX x64
     evaluation a float32 computation: weak-typed literals follow the input) and the x64 jaxpr is float64-only."""
@@ -438,8 +443,10 @@ def _numeric(fn, m, key, vals, params, seed, spec_dtypes=()):
     import jax.numpy as jnp
     import onnx
     TP = onnx.TensorProto
-    if params:
+    if kw.get("input_params"):
         return {"status": "skip:input_params"}
+    if kw.get("inputs_as_nchw") or kw.get("outputs_as_nchw"):
+        return {"status": "skip:layout-flags"}
     if any(d in NARROW for d in spec_dtypes if d):
         return {"status": "skip:spec-asks-narrower-float"}
     g = m.graph
@@ -642,19 +649,16 @@ def export_worker(job):
     out = {"kind": kind, "ident": ident, "dp": dp}
     try:
         _preload()
-        key, fn, spec, params, opset, vals, tp = _case(kind, ident, dp)
+        key, fn, spec, kw, vals, tp = _case(kind, ident, dp)
     except Exception as e:  # noqa
         out.update(key=f"{kind}:{ident}", error=f"setup {type(e).__name__}: {str(e)[:200]}")
         return out
     out["key"] = key
     out["spec_dtypes"] = _spec_dtypes(spec)
-    if vals is not None:
-        import numpy as np
-        out["spec_dtypes"] = [str(np.asarray(v).dtype) for v in vals]
     before = bool(jax.config.jax_enable_x64)
     m = None
     try:
-        m = _export(fn, spec, params, opset, dp)
+        m = _export(fn, spec, kw)
     except Exception as e:  # noqa
         out["error"] = f"{type(e).__name__}: {str(e)[:300]}"
     out["flag"] = (before, bool(jax.config.jax_enable_x64))
@@ -682,7 +686,7 @@ def export_worker(job):
         except Exception as e:  # noqa
             out["f32_evidence"] = [f"(evidence scan failed: {type(e).__name__})"]
         try:
-            out["num"] = _numeric(fn, m, key, vals, params, seed, out.get("spec_dtypes") or ())
+            out["num"] = _numeric(fn, m, key, vals, kw, seed, out.get("spec_dtypes") or ())
         except Exception as e:  # noqa
             out["num"] = {"status": "skip:harness-error", "detail": f"{type(e).__name__}: {str(e)[:200]}"}
         out["flag_after_numeric"] = bool(jax.config.jax_enable_x64)
@@ -701,9 +705,9 @@ def _scope_info(_):
     out = []
     for tp in exports.registry_items():
         try:
-            vals = tp.get("input_values")
-            dts = [str(np.asarray(v).dtype) for v in vals] if vals is not None else _spec_dtypes(exports.tp_spec(tp))
-            out.append(not tp.get("input_params") and not any(d in NARROW for d in dts if d))
+            dts = _spec_dtypes(exports.tp_spec(tp, True) or [])
+            out.append(not tp.get("input_params") and not tp.get("inputs_as_nchw") and not tp.get("outputs_as_nchw")
+                       and not any(d in NARROW for d in dts if d))
         except Exception:
             out.append(False)
     return out
@@ -766,10 +770,10 @@ def flag_worker(job):
                                                          [(2,)], enable_double_precision=dp), prev, dp)
             for ident in reg_idents:
                 try:
-                    key, fn, spec, params, opset, _v, _tp = _case("reg", ident, dp)
+                    key, fn, spec, kw, _v, _tp = _case("reg", ident, dp)
                 except Exception:
                     continue
-                attempt(key, lambda: _export(fn, spec, params, opset, dp), prev, dp)
+                attempt(key, lambda: _export(fn, spec, kw), prev, dp)
             # nested: a conversion started from inside a callable that is being converted
             for dp2 in (False, True):
                 for inner_fails in (False, True):
